@@ -94,6 +94,11 @@ impl Ctx {
         self.notes.lock().unwrap().push(s.into());
     }
 
+    pub fn no_caps(&self) -> bool {
+        let v = self.caps_hit.lock().unwrap().is_empty();
+        v
+    }
+
     pub fn cap(&self, s: impl Into<String>) {
         self.caps_hit.lock().unwrap().push(s.into());
     }
